@@ -2,6 +2,7 @@
 package repro
 
 import (
+	"bytes"
 	"errors"
 	"io"
 	"testing"
@@ -55,5 +56,49 @@ func TestD4bReadFromZeroRead(t *testing.T) {
 	_, _ = llb.ReadFrom(&zeroThenData{})
 	if llb.Buffered() == 0 && !llb.IsEmpty() {
 		t.Errorf("Buffered() == 0 but IsEmpty() == false (Len() = %d): an empty node was linked", llb.Len())
+	}
+}
+
+// failAfter accepts the first k bytes it is offered and then fails, as io.Writer permits.
+type failAfter struct {
+	k   int
+	got []byte
+}
+
+func (w *failAfter) Write(p []byte) (int, error) {
+	if w.k <= 0 {
+		return 0, errors.New("sink failed")
+	}
+	if len(p) > w.k {
+		p = p[:w.k]
+		w.got = append(w.got, p...)
+		w.k = 0
+		return len(p), errors.New("sink failed")
+	}
+	w.got = append(w.got, p...)
+	w.k -= len(p)
+	return len(p), nil
+}
+
+// D31 (C11): WriteTo pops a segment, hands it to the writer and, when the writer fails after taking only part
+// of it (or nothing), forgets the segment: the bytes the writer did not take are gone.
+func TestD31WriteToFailingWriterLosesTheRestOfTheSegment(t *testing.T) {
+	var b linkedlist.Buffer
+	b.PushBack([]byte("hello world"))
+	b.PushBack([]byte("-second"))
+	w := &failAfter{k: 4}
+	n, err := b.WriteTo(w)
+	if err == nil || n != 4 || string(w.got) != "hell" {
+		t.Fatalf("WriteTo = %d, %v, sink %q", n, err, w.got)
+	}
+	if got, want := b.Buffered(), len("o world-second"); got != want {
+		t.Errorf("after a WriteTo that moved 4 of 18 bytes, Buffered() = %d, want %d", got, want)
+	}
+	var rest bytes.Buffer
+	if _, err := b.WriteTo(&rest); err != nil {
+		t.Fatal(err)
+	}
+	if rest.String() != "o world-second" {
+		t.Errorf("bytes left after the failed WriteTo: %q, want %q (the unwritten part of the first segment is lost)", rest.String(), "o world-second")
 	}
 }
